@@ -1,6 +1,7 @@
 package main
 
 import (
+	"encoding/json"
 	"errors"
 	"fmt"
 	"github.com/sirupsen/logrus"
@@ -268,6 +269,30 @@ func init() {
 				buildCase(cw, []interface{}{rscp.BAT_REQ_DATA, u, uint16(0)}, "unknown-neighbour nested with value")
 				buildCase(cw, []interface{}{rscp.BAT_REQ_DATA, u, g.byType[rscp.None][0]}, "unknown-neighbour nested")
 			}
+		}
+		// values at and beyond what a frame can carry: the builder does not care about sizes
+		for _, l := range []int{65528, 65529, 70000, 131073} {
+			v := strings.Repeat("v", l)
+			buildCase(cw, []interface{}{g.byType[rscp.CString][0], v}, fmt.Sprintf("value-length=%d", l))
+			buildCase(cw, []interface{}{rscp.BAT_REQ_DATA, g.byType[rscp.ByteArray][0], []byte(v), g.byType[rscp.None][0]}, fmt.Sprintf("value-length=%d nested", l))
+		}
+		// strings that spell tag names, where a tag is expected and where a value is expected
+		for _, name := range []string{"INFO_REQ_UTC_TIME", "BAT_REQ_DATA", "RSCP_AUTHENTICATION_USER", "info_req_utc_time", "8388609", "Tag(5)"} {
+			buildCase(cw, []interface{}{name}, "tag-name-string alone")
+			buildCase(cw, []interface{}{rscp.BAT_REQ_DATA, name}, "tag-name-string nested")
+			buildCase(cw, []interface{}{rscp.BAT_REQ_DATA, name, "x"}, "tag-name-string nested with value")
+			buildCase(cw, []interface{}{g.byType[rscp.CString][0], name}, "tag-name-string as value")
+		}
+		// tags without a declared type stay value-less whatever the process has read from JSON before
+		for _, js := range []string{`{"Tag":16779127,"DataType":"CString","Value":"x"}`, `{"Tag":"RSCP_REQ_AUTH_CHALLENGE","DataType":"UInt16","Value":5}`,
+			`{"Tag":16779128,"DataType":"Container","Value":[]}`, `{"Tag":"` + g.byType[rscp.None][0].String() + `","DataType":"Bool","Value":true}`} {
+			var m rscp.Message
+			_ = json.Unmarshal([]byte(js), &m)
+		}
+		for _, t := range []rscp.Tag{16779127, 16779128, g.byType[rscp.None][0]} {
+			buildCase(cw, []interface{}{t}, "untyped tag after JSON with explicit type")
+			buildCase(cw, []interface{}{rscp.BAT_REQ_DATA, t, "x"}, "untyped tag after JSON with explicit type, nested with value")
+			buildCase(cw, []interface{}{rscp.BAT_REQ_DATA, t, g.byType[rscp.None][0]}, "untyped tag after JSON with explicit type, nested")
 		}
 		// a slice as an argument (a forgotten `...`), alone and among others: a value where a tag is expected
 		for _, inner := range [][]interface{}{{}, {g.byType[rscp.None][0]}, {g.byType[rscp.CString][0], "v"}, {g.byType[rscp.CString][0]}, {rscp.BAT_REQ_DATA, g.byType[rscp.None][0]}} {
